@@ -58,6 +58,8 @@ enum ConnType {
     Tls(TlsStream<TcpStream>),
     #[cfg(unix)]
     Unix(UnixStream),
+    #[cfg(ldap3_verif)]
+    Verif(VerifStream),
 }
 
 #[cfg(feature = "tls-rustls")]
@@ -157,6 +159,8 @@ impl AsyncRead for ConnType {
             ConnType::Tls(tls) => Pin::new(tls).poll_read(cx, buf),
             #[cfg(unix)]
             ConnType::Unix(us) => Pin::new(us).poll_read(cx, buf),
+            #[cfg(ldap3_verif)]
+            ConnType::Verif(vs) => Pin::new(&mut vs.0).poll_read(cx, buf),
         }
     }
 }
@@ -169,6 +173,8 @@ impl AsyncWrite for ConnType {
             ConnType::Tls(tls) => Pin::new(tls).poll_write(cx, buf),
             #[cfg(unix)]
             ConnType::Unix(us) => Pin::new(us).poll_write(cx, buf),
+            #[cfg(ldap3_verif)]
+            ConnType::Verif(vs) => Pin::new(&mut vs.0).poll_write(cx, buf),
         }
     }
 
@@ -179,6 +185,8 @@ impl AsyncWrite for ConnType {
             ConnType::Tls(tls) => Pin::new(tls).poll_flush(cx),
             #[cfg(unix)]
             ConnType::Unix(us) => Pin::new(us).poll_flush(cx),
+            #[cfg(ldap3_verif)]
+            ConnType::Verif(vs) => Pin::new(&mut vs.0).poll_flush(cx),
         }
     }
 
@@ -189,6 +197,8 @@ impl AsyncWrite for ConnType {
             ConnType::Tls(tls) => Pin::new(tls).poll_shutdown(cx),
             #[cfg(unix)]
             ConnType::Unix(us) => Pin::new(us).poll_shutdown(cx),
+            #[cfg(ldap3_verif)]
+            ConnType::Verif(vs) => Pin::new(&mut vs.0).poll_shutdown(cx),
         }
     }
 }
@@ -368,6 +378,8 @@ pub struct LdapConnAsync {
     id_scrub_rx: mpsc::UnboundedReceiver<RequestId>,
     misc_rx: mpsc::UnboundedReceiver<MiscSender>,
     stream: Framed<ConnType, LdapCodec>,
+    #[cfg(ldap3_verif)]
+    verif: Arc<VerifGauges>,
 }
 
 /// Drive the connection until its completion. __*__
@@ -686,6 +698,8 @@ impl LdapConnAsync {
             id_scrub_rx,
             misc_rx,
             stream: codec.framed(ctype),
+            #[cfg(ldap3_verif)]
+            verif: Arc::new(VerifGauges::default()),
         };
         let ldap = Ldap {
             msgmap: conn.msgmap.clone(),
@@ -703,6 +717,8 @@ impl LdapConnAsync {
             timeout: None,
             controls: None,
             search_opts: None,
+            #[cfg(ldap3_verif)]
+            verif: conn.verif.clone(),
         };
         (conn, ldap)
     }
@@ -757,8 +773,12 @@ impl LdapConnAsync {
 
     async fn turn(mut self, mode: LoopMode) -> Result<Self> {
         loop {
+            #[cfg(ldap3_verif)]
+            self.verif.publish(self.resultmap.len(), self.searchmap.len());
             tokio::select! {
                 req_id = self.id_scrub_rx.recv() => {
+                    #[cfg(ldap3_verif)]
+                    self.verif.branch(0);
                     if let Some(req_id) = req_id {
                         self.resultmap.remove(&req_id);
                         self.searchmap.remove(&req_id);
@@ -767,6 +787,8 @@ impl LdapConnAsync {
                     }
                 },
                 op_tuple = self.rx.recv() => {
+                    #[cfg(ldap3_verif)]
+                    self.verif.branch(1);
                     if let Some((id, op, tag, controls, tx)) = op_tuple {
                         if let LdapOp::Search(ref search_tx) = op {
                             self.searchmap.insert(id, search_tx.clone());
@@ -805,6 +827,8 @@ impl LdapConnAsync {
                     }
                 },
                 misc = self.misc_rx.recv() => {
+                    #[cfg(ldap3_verif)]
+                    self.verif.branch(2);
                     if let Some(sender) = misc {
                         match sender {
                             #[cfg(any(feature = "tls-native", feature = "tls-rustls"))]
@@ -824,6 +848,8 @@ impl LdapConnAsync {
                     }
                 },
                 resp = self.stream.next() => {
+                    #[cfg(ldap3_verif)]
+                    self.verif.branch(3);
                     let (id, (tag, controls)) = match resp {
                         None => break,
                         Some(Err(e)) => {
@@ -867,5 +893,59 @@ impl LdapConnAsync {
             }
         }
         Ok(self)
+    }
+}
+
+/// Verification-only transport: any in-memory duplex the harness owns.
+#[cfg(ldap3_verif)]
+pub trait VerifIo: AsyncRead + AsyncWrite + Send + Unpin {}
+
+#[cfg(ldap3_verif)]
+impl<T: AsyncRead + AsyncWrite + Send + Unpin> VerifIo for T {}
+
+#[cfg(ldap3_verif)]
+pub struct VerifStream(pub Box<dyn VerifIo>);
+
+#[cfg(ldap3_verif)]
+impl std::fmt::Debug for VerifStream {
+    fn fmt(&self, f: &mut std::fmt::Formatter) -> std::fmt::Result {
+        f.write_str("VerifStream")
+    }
+}
+
+/// Verification-only gauges, written by the driver task alone, read by the harness.
+#[cfg(ldap3_verif)]
+#[derive(Debug, Default)]
+pub struct VerifGauges {
+    pub resultmap_len: std::sync::atomic::AtomicUsize,
+    pub searchmap_len: std::sync::atomic::AtomicUsize,
+    pub loop_iters: std::sync::atomic::AtomicU64,
+    pub branch_hash: std::sync::atomic::AtomicU64,
+    pub branch_count: [std::sync::atomic::AtomicU64; 4],
+}
+
+#[cfg(ldap3_verif)]
+impl VerifGauges {
+    fn publish(&self, resultmap_len: usize, searchmap_len: usize) {
+        use std::sync::atomic::Ordering::SeqCst;
+        self.resultmap_len.store(resultmap_len, SeqCst);
+        self.searchmap_len.store(searchmap_len, SeqCst);
+        self.loop_iters.fetch_add(1, SeqCst);
+    }
+
+    fn branch(&self, b: u8) {
+        use std::sync::atomic::Ordering::SeqCst;
+        let h = self.branch_hash.load(SeqCst);
+        self.branch_hash
+            .store((h ^ (b as u64 + 1)).wrapping_mul(0x100000001b3), SeqCst);
+        self.branch_count[b as usize].fetch_add(1, SeqCst);
+    }
+}
+
+#[cfg(ldap3_verif)]
+impl LdapConnAsync {
+    /// Build a connection/handle pair over a harness-owned transport.
+    pub fn verif_from_io(io: Box<dyn VerifIo>) -> (Self, Ldap) {
+        Self::conn_pair(ConnType::Verif(VerifStream(io)))
     }
 }
